@@ -27,7 +27,7 @@ func TestMain(m *testing.M) {
 	case "C16":
 		harness.Run(&harness.Prop{
 			ID:             "C16",
-			Rule:           "the shipped start() of rtcmlogger (in-package harness) under the controlled scheduler with stdin, stdout and the daily record writer owned by the harness (every Read and Write a scheduling point); inputs {empty, 1 byte, 3 bytes with 00 and D3, 5 bytes, 8095, 8096, 8097 and 16193 bytes}; stdin chunkings {everything the buffer takes, 1 byte, 2 bytes} for the small inputs and {buffer-full, 8095, 4000} for the large ones (all chunkings in the unbounded pass); event logging off/on; two scenarios in which the record writer fails on every call (the pass-through must still complete); every interleaving of the copying loop and the recorder goroutine; and, under the default schedule, 96 start-up environments with the record in REAL files of a scratch directory: host time zone {UTC, UTC+13, UTC-11, UTC+11:30} (local date equal to, ahead of, behind the UTC date) x record directory {absent, today's record already holds data, empty records of yesterday/today/tomorrow, nested directory to be created} x input {0, 5, 8097 bytes} x event logging off/on, oracle: the file named for the local date in the configured directory holds (old content +) stdin when start() returns. Oracle at the instant start() returns (the process exits next): stdout == stdin and record == stdin; the recorder has terminated at quiescence; no panic. Non-trivial = distinct schedule trace",
+			Rule:           "the shipped start() of rtcmlogger (in-package harness) under the controlled scheduler with stdin, stdout and the daily record writer owned by the harness (every Read and Write a scheduling point); inputs {empty, 1 byte, 3 bytes with 00 and D3, 5 bytes, 8095, 8096, 8097 and 16193 bytes}; stdin chunkings {everything the buffer takes, 1 byte, 2 bytes} for the small inputs and {buffer-full, 8095, 4000} for the large ones (all chunkings in the unbounded pass); event logging off/on; two scenarios in which the record writer fails on every call (the pass-through must still complete); every interleaving of the copying loop and the recorder goroutine; and, under the default schedule, 120 start-up environments with the record in REAL files of a scratch directory: host time zone {UTC, UTC+13, UTC-11, UTC+11:30} (local date equal to, ahead of, behind the UTC date) x record directory {absent, today's record already holds data, empty records of yesterday/today/tomorrow, nested directory to be created, event log configured into the same directory} x input {0, 5, 8097 bytes} x event logging off/on, oracle: the file named for the local date in the configured directory holds (old content +) stdin when start() returns. Oracle at the instant start() returns (the process exits next): stdout == stdin and record == stdin; the recorder has terminated at quiescence; no panic. Non-trivial = distinct schedule trace",
 			Assumptions:    []string{"dailylogger.New is redirected to an in-memory sink (schedule scenarios) or to a file-backed stand-in that keeps its contract - <dir>/<leader><local date><trailer>, created at construction, opened for appending, directory created on demand (record-file scenarios); rotation at midnight belongs to the go-tools dependency", "stdin errors other than EOF are not injected"},
 			Scenarios:      scenarios,
 			Post:           realBinary,
@@ -128,6 +128,49 @@ func scenarios(tier string) []*mcrt.Scenario {
 			}
 		}
 	}
+	// event log and record configured into the SAME directory (as with the minimal
+	// config, where both default to "."): the record must still hold stdin only
+	for _, n := range []int{0, 5, 8097} {
+		n := n
+		input := pattern(n)
+		scs = append(scs, &mcrt.Scenario{
+			Name:  fmt.Sprintf("same-directory-for-events-and-record input=%dB", n),
+			Bound: 2, Horizon: 200000, Prune: true, Full: true,
+			Body: func(x *mcrt.X) {
+				obs := &obsT{out: &hsink.Sink{Name: "stdout"}, sinks: &hsink.Sinks{}}
+				x.Data = obs
+				reportingReadErrors, reportingEventLogWriteErrors, reportingLogWriteErrors = true, true, true
+				eventLogger = nil
+				mcrt.NewDailySink = obs.sinks.New
+				mcrt.Stdin = &hsink.ChunkReader{Data: input, Sizes: []int{0, 4000}, Reset: true}
+				mcrt.Stdout = obs.out
+				start(&config.Config{MessageLogDirectory: "logs", LogEvents: true, EventLogDirectory: "logs"})
+				obs.rec = obs.sinks.Get("rtcmlogger..rtcm")
+				obs.outAtRet = append([]byte{}, obs.out.Buf...)
+				obs.recAtRet = append([]byte{}, obs.rec.Buf...)
+				mcrt.Note(uint64(len(obs.outAtRet))<<32 | uint64(len(obs.recAtRet)))
+				obs.returned = true
+			},
+			Check: func(x *mcrt.X) *mcrt.Failure {
+				obs := x.Data.(*obsT)
+				if len(x.Panics) > 0 {
+					p := x.Panics[0]
+					return &mcrt.Failure{Kind: "panic in " + p.Thread + ": " + first(p.Value) + " @" + p.Site, Detail: p.Stack}
+				}
+				if !obs.returned {
+					return &mcrt.Failure{Kind: "start-did-not-return end=" + x.End, Detail: fmt.Sprint(x.Blocked)}
+				}
+				if !bytes.Equal(obs.outAtRet, input) {
+					return &mcrt.Failure{Kind: "stdout-differs-from-stdin", Detail: fmt.Sprintf("%d bytes out, %d bytes in", len(obs.outAtRet), len(input))}
+				}
+				if !bytes.Equal(obs.recAtRet, input) {
+					return &mcrt.Failure{Kind: "record-differs-from-stdin", Detail: fmt.Sprintf("event log and record in one directory: record %d bytes, input %d bytes", len(obs.recAtRet), len(input))}
+				}
+				harness.Outcome("same directory: record holds stdin only")
+				return nil
+			},
+		})
+	}
 	// the record writer fails on every call (disk full): recording must not
 	// stop, delay or truncate the pass-through; input arrives in 1-byte blocks so
 	// that many blocks follow the first failures
@@ -226,7 +269,7 @@ func fileScenarios() []*mcrt.Scenario {
 		name string
 		off  int
 	}{{"UTC", 0}, {"UTC+13", 13 * 3600}, {"UTC-11", -11 * 3600}, {"UTC+11:30", 11*3600 + 1800}}
-	pres := []string{"absent", "todays-record-has-data", "empty-records-of-three-days", "subdirectory-missing-parents"}
+	pres := []string{"absent", "todays-record-has-data", "empty-records-of-three-days", "subdirectory-missing-parents", "events-in-the-same-directory"}
 	for _, z := range zones {
 		for _, pre := range pres {
 			for _, n := range []int{0, 5, 8097} {
@@ -280,7 +323,11 @@ func fileScenarios() []*mcrt.Scenario {
 							mcrt.NewDailySink = fs.New
 							mcrt.Stdin = &hsink.ChunkReader{Data: input, Sizes: []int{0}, Reset: true}
 							mcrt.Stdout = obs.out
-							start(&config.Config{MessageLogDirectory: dir, LogEvents: le, EventLogDirectory: root + "/events"})
+							evDir := root + "/events"
+							if pre == "events-in-the-same-directory" {
+								evDir = dir
+							}
+							start(&config.Config{MessageLogDirectory: dir, LogEvents: le, EventLogDirectory: evDir})
 							obs.outAtRet = append([]byte{}, obs.out.Buf...)
 							// the day's record as a user finds it: by name, in the configured directory
 							obs.recAtRet, _ = os.ReadFile(day(0))
